@@ -134,6 +134,62 @@ inductive Stmt
   | tabular (t : Tabular)
   deriving Inhabited
 
+/-! ### `Span()` of every node type (parser/ast.go), following each union argument by argument -/
+
+def Ident.spanOf : Option Ident → Span
+  | none => .null
+  | some i => i.span
+
+/-- `nodeSliceSpan`: the union of the valid spans -/
+def sliceSpan (ss : List Span) : Span := Span.unions (ss.filter Span.isValid)
+
+mutual
+def Expr.spanOf : Expr → Span
+  | .nil => .null
+  | .qident parts => sliceSpan (parts.map fun i => i.span)
+  | .lit sp _ _ => sp
+  | .unary os _ x => Span.unions [os, x.spanOf]
+  | .binary x os _ y => Span.unions [x.spanOf, os, y.spanOf]
+  | .inE x i lp vals rp => Span.unions [x.spanOf, i, lp, sliceSpan vals.spansOf, rp]
+  | .paren lp x rp => Span.unions [lp, x.spanOf, rp]
+  | .call fn lp args rp => Span.unions [fn.span, lp, sliceSpan args.spansOf, rp]
+  | .index x lb idx rb => Span.unions [x.spanOf, lb, idx.spanOf, rb]
+def ExprList.spansOf : ExprList → List Span
+  | .nil => []
+  | .cons e es => e.spanOf :: es.spansOf
+end
+
+def SortTerm.spanOf (t : SortTerm) : Span := Span.unions [t.x.spanOf, t.ascDescSpan, t.nullsSpan]
+def Column.spanOf (c : Column) : Span := Span.unions [Ident.spanOf c.name, c.assign, c.x.spanOf]
+def RenderProp.spanOf (p : RenderProp) : Span := Span.unions [Ident.spanOf p.name, p.assign, p.value.spanOf]
+
+mutual
+def Tabular.spanOf : Tabular → Span
+  | .nil => .null
+  | .mk src ops => Span.unions [Ident.spanOf src, sliceSpan ops.spansOf]
+def Op.spanOf : Op → Span
+  | .count p k => Span.unions [p, k]
+  | .where_ p k e => Span.unions [p, k, e.spanOf]
+  | .sort p k ts => Span.unions [p, k, sliceSpan (ts.map SortTerm.spanOf)]
+  | .take p k n => Span.unions [p, k, n.spanOf]
+  | .top p k n b c => Span.unions [p, k, n.spanOf, b, match c with | some t => t.spanOf | none => .null]
+  | .project p k cs => Span.unions [p, k, sliceSpan (cs.map Column.spanOf)]
+  | .extend p k cs => Span.unions [p, k, sliceSpan (cs.map Column.spanOf)]
+  | .summarize p k cs b gs => Span.unions [p, k, sliceSpan (cs.map Column.spanOf), b, sliceSpan (gs.map Column.spanOf)]
+  | .join p k kind ka fl lp right rp on conds =>
+    Span.unions [p, k, kind, ka, Ident.spanOf fl, lp, right.spanOf, rp, on, sliceSpan conds.spansOf]
+  | .as_ p k n => Span.unions [p, k, Ident.spanOf n]
+  | .render p k ch w lp props rp =>
+    Span.unions [p, k, Ident.spanOf ch, w, lp, sliceSpan (props.map RenderProp.spanOf), rp]
+def OpList.spansOf : OpList → List Span
+  | .nil => []
+  | .cons o os => o.spanOf :: os.spansOf
+end
+
+def Stmt.spanOf : Stmt → Span
+  | .let_ kw name asg x => Span.unions [kw, Ident.spanOf name, asg, x.spanOf]
+  | .tabular t => t.spanOf
+
 /-! ### canonical dump (compared with the reflection dump of the Go tree)
 
 `(Type Field=value …)` with fields sorted by name; spans `a:b`; strings in hex; `nil`. -/
@@ -142,7 +198,7 @@ def Span.dump (s : Span) : String := toString s.start ++ ":" ++ toString s.stop
 def dumpBool (b : Bool) : String := if b then "t" else "f"
 
 def Ident.dump (i : Ident) : String :=
-  "(Ident Name=" ++ Bytes.toHexField i.name ++ " NameSpan=" ++ i.span.dump ++ " Quoted=" ++ dumpBool i.quoted ++ ")"
+  "(Ident @=" ++ i.span.dump ++ " Name=" ++ Bytes.toHexField i.name ++ " NameSpan=" ++ i.span.dump ++ " Quoted=" ++ dumpBool i.quoted ++ ")"
 
 def dumpOptIdent : Option Ident → String
   | none => "nil"
@@ -153,18 +209,18 @@ def dumpList (xs : List String) : String := "[" ++ " ".intercalate xs ++ "]"
 mutual
 def Expr.dump : Expr → String
   | .nil => "nil"
-  | .qident parts => "(QualifiedIdent Parts=" ++ dumpList (parts.map Ident.dump) ++ ")"
-  | .lit sp k v => "(BasicLit Kind=" ++ k.goName ++ " Value=" ++ Bytes.toHexField v ++ " ValueSpan=" ++ sp.dump ++ ")"
-  | .unary os op x => "(UnaryExpr Op=" ++ op.goName ++ " OpSpan=" ++ os.dump ++ " X=" ++ x.dump ++ ")"
+  | .qident parts => "(QualifiedIdent @=" ++ (Expr.qident parts).spanOf.dump ++ " Parts=" ++ dumpList (parts.map Ident.dump) ++ ")"
+  | .lit sp k v => "(BasicLit @=" ++ sp.dump ++ " Kind=" ++ k.goName ++ " Value=" ++ Bytes.toHexField v ++ " ValueSpan=" ++ sp.dump ++ ")"
+  | .unary os op x => "(UnaryExpr @=" ++ (Expr.unary os op x).spanOf.dump ++ " Op=" ++ op.goName ++ " OpSpan=" ++ os.dump ++ " X=" ++ x.dump ++ ")"
   | .binary x os op y =>
-    "(BinaryExpr Op=" ++ op.goName ++ " OpSpan=" ++ os.dump ++ " X=" ++ x.dump ++ " Y=" ++ y.dump ++ ")"
+    "(BinaryExpr @=" ++ (Expr.binary x os op y).spanOf.dump ++ " Op=" ++ op.goName ++ " OpSpan=" ++ os.dump ++ " X=" ++ x.dump ++ " Y=" ++ y.dump ++ ")"
   | .inE x i lp vals rp =>
-    "(InExpr In=" ++ i.dump ++ " Lparen=" ++ lp.dump ++ " Rparen=" ++ rp.dump ++ " Vals=[" ++ vals.dump ++ "] X=" ++ x.dump ++ ")"
-  | .paren lp x rp => "(ParenExpr Lparen=" ++ lp.dump ++ " Rparen=" ++ rp.dump ++ " X=" ++ x.dump ++ ")"
+    "(InExpr @=" ++ (Expr.inE x i lp vals rp).spanOf.dump ++ " In=" ++ i.dump ++ " Lparen=" ++ lp.dump ++ " Rparen=" ++ rp.dump ++ " Vals=[" ++ vals.dump ++ "] X=" ++ x.dump ++ ")"
+  | .paren lp x rp => "(ParenExpr @=" ++ (Expr.paren lp x rp).spanOf.dump ++ " Lparen=" ++ lp.dump ++ " Rparen=" ++ rp.dump ++ " X=" ++ x.dump ++ ")"
   | .call fn lp args rp =>
-    "(CallExpr Args=[" ++ args.dump ++ "] Func=" ++ fn.dump ++ " Lparen=" ++ lp.dump ++ " Rparen=" ++ rp.dump ++ ")"
+    "(CallExpr @=" ++ (Expr.call fn lp args rp).spanOf.dump ++ " Args=[" ++ args.dump ++ "] Func=" ++ fn.dump ++ " Lparen=" ++ lp.dump ++ " Rparen=" ++ rp.dump ++ ")"
   | .index x lb idx rb =>
-    "(IndexExpr Index=" ++ idx.dump ++ " Lbrack=" ++ lb.dump ++ " Rbrack=" ++ rb.dump ++ " X=" ++ x.dump ++ ")"
+    "(IndexExpr @=" ++ (Expr.index x lb idx rb).spanOf.dump ++ " Index=" ++ idx.dump ++ " Lbrack=" ++ lb.dump ++ " Rbrack=" ++ rb.dump ++ " X=" ++ x.dump ++ ")"
 def ExprList.dump : ExprList → String
   | .nil => ""
   | .cons e .nil => e.dump
@@ -172,41 +228,41 @@ def ExprList.dump : ExprList → String
 end
 
 def SortTerm.dump (t : SortTerm) : String :=
-  "(SortTerm Asc=" ++ dumpBool t.asc ++ " AscDescSpan=" ++ t.ascDescSpan.dump ++ " NullsFirst=" ++ dumpBool t.nullsFirst ++
+  "(SortTerm @=" ++ t.spanOf.dump ++ " Asc=" ++ dumpBool t.asc ++ " AscDescSpan=" ++ t.ascDescSpan.dump ++ " NullsFirst=" ++ dumpBool t.nullsFirst ++
     " NullsSpan=" ++ t.nullsSpan.dump ++ " X=" ++ t.x.dump ++ ")"
 
 def Column.dump (ty : String) (c : Column) : String :=
-  "(" ++ ty ++ " Assign=" ++ c.assign.dump ++ " Name=" ++ dumpOptIdent c.name ++ " X=" ++ c.x.dump ++ ")"
+  "(" ++ ty ++ " @=" ++ c.spanOf.dump ++ " Assign=" ++ c.assign.dump ++ " Name=" ++ dumpOptIdent c.name ++ " X=" ++ c.x.dump ++ ")"
 
 def RenderProp.dump (p : RenderProp) : String :=
-  "(RenderProperty Assign=" ++ p.assign.dump ++ " Name=" ++ dumpOptIdent p.name ++ " Value=" ++ p.value.dump ++ ")"
+  "(RenderProperty @=" ++ p.spanOf.dump ++ " Assign=" ++ p.assign.dump ++ " Name=" ++ dumpOptIdent p.name ++ " Value=" ++ p.value.dump ++ ")"
 
 mutual
 def Tabular.dump : Tabular → String
   | .nil => "nil"
   | .mk src ops =>
-    "(TabularExpr Operators=[" ++ ops.dump ++ "] Source=" ++
-      (match src with | none => "nil" | some i => "(TableRef Table=" ++ i.dump ++ ")") ++ ")"
+    "(TabularExpr @=" ++ (Tabular.mk src ops).spanOf.dump ++ " Operators=[" ++ ops.dump ++ "] Source=" ++
+      (match src with | none => "nil" | some i => "(TableRef @=" ++ i.span.dump ++ " Table=" ++ i.dump ++ ")") ++ ")"
 def Op.dump : Op → String
-  | .count p k => "(CountOperator Keyword=" ++ k.dump ++ " Pipe=" ++ p.dump ++ ")"
-  | .where_ p k e => "(WhereOperator Keyword=" ++ k.dump ++ " Pipe=" ++ p.dump ++ " Predicate=" ++ e.dump ++ ")"
-  | .sort p k ts => "(SortOperator Keyword=" ++ k.dump ++ " Pipe=" ++ p.dump ++ " Terms=" ++ dumpList (ts.map SortTerm.dump) ++ ")"
-  | .take p k n => "(TakeOperator Keyword=" ++ k.dump ++ " Pipe=" ++ p.dump ++ " RowCount=" ++ n.dump ++ ")"
+  | .count p k => "(CountOperator @=" ++ (Op.count p k).spanOf.dump ++ " Keyword=" ++ k.dump ++ " Pipe=" ++ p.dump ++ ")"
+  | .where_ p k e => "(WhereOperator @=" ++ (Op.where_ p k e).spanOf.dump ++ " Keyword=" ++ k.dump ++ " Pipe=" ++ p.dump ++ " Predicate=" ++ e.dump ++ ")"
+  | .sort p k ts => "(SortOperator @=" ++ (Op.sort p k ts).spanOf.dump ++ " Keyword=" ++ k.dump ++ " Pipe=" ++ p.dump ++ " Terms=" ++ dumpList (ts.map SortTerm.dump) ++ ")"
+  | .take p k n => "(TakeOperator @=" ++ (Op.take p k n).spanOf.dump ++ " Keyword=" ++ k.dump ++ " Pipe=" ++ p.dump ++ " RowCount=" ++ n.dump ++ ")"
   | .top p k n b c =>
-    "(TopOperator By=" ++ b.dump ++ " Col=" ++ (match c with | none => "nil" | some t => t.dump) ++ " Keyword=" ++ k.dump ++
+    "(TopOperator @=" ++ (Op.top p k n b c).spanOf.dump ++ " By=" ++ b.dump ++ " Col=" ++ (match c with | none => "nil" | some t => t.dump) ++ " Keyword=" ++ k.dump ++
       " Pipe=" ++ p.dump ++ " RowCount=" ++ n.dump ++ ")"
-  | .project p k cs => "(ProjectOperator Cols=" ++ dumpList (cs.map (Column.dump "ProjectColumn")) ++ " Keyword=" ++ k.dump ++ " Pipe=" ++ p.dump ++ ")"
-  | .extend p k cs => "(ExtendOperator Cols=" ++ dumpList (cs.map (Column.dump "ExtendColumn")) ++ " Keyword=" ++ k.dump ++ " Pipe=" ++ p.dump ++ ")"
+  | .project p k cs => "(ProjectOperator @=" ++ (Op.project p k cs).spanOf.dump ++ " Cols=" ++ dumpList (cs.map (Column.dump "ProjectColumn")) ++ " Keyword=" ++ k.dump ++ " Pipe=" ++ p.dump ++ ")"
+  | .extend p k cs => "(ExtendOperator @=" ++ (Op.extend p k cs).spanOf.dump ++ " Cols=" ++ dumpList (cs.map (Column.dump "ExtendColumn")) ++ " Keyword=" ++ k.dump ++ " Pipe=" ++ p.dump ++ ")"
   | .summarize p k cs b gs =>
-    "(SummarizeOperator By=" ++ b.dump ++ " Cols=" ++ dumpList (cs.map (Column.dump "SummarizeColumn")) ++ " GroupBy=" ++
+    "(SummarizeOperator @=" ++ (Op.summarize p k cs b gs).spanOf.dump ++ " By=" ++ b.dump ++ " Cols=" ++ dumpList (cs.map (Column.dump "SummarizeColumn")) ++ " GroupBy=" ++
       dumpList (gs.map (Column.dump "SummarizeColumn")) ++ " Keyword=" ++ k.dump ++ " Pipe=" ++ p.dump ++ ")"
   | .join p k kind ka fl lp right rp on conds =>
-    "(JoinOperator Conditions=[" ++ conds.dump ++ "] Flavor=" ++ dumpOptIdent fl ++ " Keyword=" ++ k.dump ++ " Kind=" ++ kind.dump ++
+    "(JoinOperator @=" ++ (Op.join p k kind ka fl lp right rp on conds).spanOf.dump ++ " Conditions=[" ++ conds.dump ++ "] Flavor=" ++ dumpOptIdent fl ++ " Keyword=" ++ k.dump ++ " Kind=" ++ kind.dump ++
       " KindAssign=" ++ ka.dump ++ " Lparen=" ++ lp.dump ++ " On=" ++ on.dump ++ " Pipe=" ++ p.dump ++ " Right=" ++ right.dump ++
       " Rparen=" ++ rp.dump ++ ")"
-  | .as_ p k n => "(AsOperator Keyword=" ++ k.dump ++ " Name=" ++ dumpOptIdent n ++ " Pipe=" ++ p.dump ++ ")"
+  | .as_ p k n => "(AsOperator @=" ++ (Op.as_ p k n).spanOf.dump ++ " Keyword=" ++ k.dump ++ " Name=" ++ dumpOptIdent n ++ " Pipe=" ++ p.dump ++ ")"
   | .render p k ch w lp props rp =>
-    "(RenderOperator ChartType=" ++ dumpOptIdent ch ++ " Keyword=" ++ k.dump ++ " Lparen=" ++ lp.dump ++ " Pipe=" ++ p.dump ++
+    "(RenderOperator @=" ++ (Op.render p k ch w lp props rp).spanOf.dump ++ " ChartType=" ++ dumpOptIdent ch ++ " Keyword=" ++ k.dump ++ " Lparen=" ++ lp.dump ++ " Pipe=" ++ p.dump ++
       " Props=" ++ dumpList (props.map RenderProp.dump) ++ " Rparen=" ++ rp.dump ++ " With=" ++ w.dump ++ ")"
 def OpList.dump : OpList → String
   | .nil => ""
@@ -216,7 +272,7 @@ end
 
 def Stmt.dump : Stmt → String
   | .let_ kw name assign x =>
-    "(LetStatement Assign=" ++ assign.dump ++ " Keyword=" ++ kw.dump ++ " Name=" ++ dumpOptIdent name ++ " X=" ++ x.dump ++ ")"
+    "(LetStatement @=" ++ (Stmt.let_ kw name assign x).spanOf.dump ++ " Assign=" ++ assign.dump ++ " Keyword=" ++ kw.dump ++ " Name=" ++ dumpOptIdent name ++ " X=" ++ x.dump ++ ")"
   | .tabular t => t.dump
 
 end Pql
